@@ -274,6 +274,125 @@ def ob_disc(seed=0):
                 sample={"lemma": "binary_rev discriminant > 0", "term": str(z3.simplify(calls[0].t))[:300]})
 
 
+REPLAY_ARR = '''
+import math
+import numpy as np
+from chempy.kinetics import integrated
+f = getattr(integrated, %(fn)r)
+name, nval = %(name)r, %(nval)d
+pt = %(pt)s
+scope = dict(pt)
+scope.update(f=f, be=np, n=nval)
+T = np.array([pt["t"], pt["t"] + 1.25]) + (pt.get("t0", 0.0) if name.endswith("_t0") else 0.0)
+T_before = T.copy()
+scope["T"] = T
+call = %(call)r
+r1 = eval(call, {}, scope)
+r1 = [np.array(c, dtype=float).copy() for c in (r1 if isinstance(r1, tuple) else [r1])]
+bad = []
+if not (T == T_before).all(): bad.append("the call changed the caller's time array: %%s -> %%s" %% (T_before, T))
+r2 = eval(call, {}, scope)
+r2 = [np.array(c, dtype=float) for c in (r2 if isinstance(r2, tuple) else [r2])]
+for i, (a, b) in enumerate(zip(r1, r2)):
+    if not np.allclose(a, b, rtol=1e-12, atol=0): bad.append("component %%d: second evaluation on the same array gives %%s, first gave %%s" %% (i, b, a))
+for j in range(2):
+    scope["T"] = float(T_before[j])
+    rs = eval(call, {}, scope)
+    rs = list(rs) if isinstance(rs, tuple) else [rs]
+    for i, v in enumerate(rs):
+        if abs(float(v) - r1[i][j]) > 1e-9 * abs(float(v)): bad.append("component %%d at t[%%d]: array evaluation %%r, scalar evaluation %%r" %% (i, j, r1[i][j], float(v)))
+for b in bad: print("MISMATCH", b)
+sys.exit(1 if bad else 0)
+'''
+
+
+def ob_array(name, nval=1, seed=0):
+    """history with a time GRID (object ndarray of symbolic instants): element-wise the same as the scalar evaluation, the caller's
+    array is left untouched, and a second evaluation on the same array gives the same values"""
+    import numpy as np
+    from chempy.kinetics import integrated
+
+    t0_ = time.time()
+    spec = CASES[name]
+    f = getattr(integrated, spec.get("fn", name))
+    P = {p: Real(p) for p in spec["params"]}
+    ta, tb = Real("t"), Real("tb")
+    be = ZBackend()
+    first, rest = spec["call"].split(",", 1)
+    first = first[len("f("):]
+    call = "f(T," + rest
+    scope = dict(P)
+    scope.update(f=f, be=be, n=nval)
+    res = dict(engine="Z", functions=[env.describe(f)], obligations=0, discharged=0, violations=[], inconclusive=[], queries=0, solver_s=0.0,
+               bounds="time grid of 2 symbolic instants, all positive parameters", sample={"function": name, "call": call, "T": "object ndarray"})
+    try:
+        scope["t"] = np.array([ta, tb], dtype=object)
+        T = eval(first, {}, scope)          # e.g. t or t + t0: the caller's own grid
+        orig = list(T)
+        scope["T"] = T
+        r1 = eval(call, {}, scope)
+        r1 = [list(c) for c in (r1 if isinstance(r1, tuple) else [r1])]
+        kept = all(a is b for a, b in zip(T, orig))
+        r2 = eval(call, {}, scope)
+        r2 = [list(c) for c in (r2 if isinstance(r2, tuple) else [r2])]
+        scal = []
+        for tj in orig:
+            scope["T"] = tj
+            rs = eval(call, {}, scope)
+            scal.append(list(rs) if isinstance(rs, tuple) else [rs])
+    except Exception as e:
+        from vlib.zrun import wrapper_exc
+
+        res["obligations"] = 1
+        if wrapper_exc(e):
+            res["inconclusive"].append("array evaluation not carried by the wrapper: %r" % (e,))
+        else:
+            res["violations"].append(dict(key="%s.array.exc" % spec.get("fn", name), soft=True, desc="%s on a time grid raised %r" % (name, e),
+                                          replay_src=_arr_replay(name, nval, spec, call)))
+        res["status"] = "violation" if res["violations"] else "inconclusive"
+        return res
+    assum = [P[p].t > 0 for p in spec["params"]] + [ta.t >= 0, tb.t >= 0]
+    goals = []
+    for i in range(len(r1)):
+        for j in range(2):
+            goals.append(("scalar", term(r1[i][j]) == term(scal[j][i])))
+            goals.append(("repeat", term(r2[i][j]) == term(r1[i][j])))
+    res["obligations"] = len(goals) + 1
+    bad = None if kept else "untouched"
+    if kept:
+        res["discharged"] += 1
+    for kind, g in goals:
+        norm = UFNorm(assum, timeout_ms=10000)
+        v, m = norm.prove(g, timeout_ms=30000)
+        res["queries"] += 1 + norm.stats["arg_queries"]
+        if v == "unsat":
+            res["discharged"] += 1
+        elif v == "sat":
+            bad = bad or kind
+        else:
+            res["inconclusive"].append("%s: solver %s" % (kind, v))
+    tw = UFNorm(assum, timeout_ms=5000).prove(term(r1[0][0]) == term(scal[1][0]))[0]
+    res["twin"] = "violated" if tw == "sat" else ("passed" if tw == "unsat" else "unknown")
+    if bad:
+        res["violations"].append(dict(key="%s.array.%s" % (spec.get("fn", name), bad), soft=True,
+                                      desc="%s on a time grid: %s" % (name, {"untouched": "the caller's array was modified", "scalar": "differs from the scalar evaluation",
+                                                                              "repeat": "second evaluation on the same array differs"}[bad]),
+                                      replay_src=_arr_replay(name, nval, spec, call)))
+    res["solver_s"] = time.time() - t0_
+    res["status"] = "violation" if res["violations"] else ("inconclusive" if res["inconclusive"] else "discharged")
+    return res
+
+
+def _arr_replay(name, nval, spec, call):
+    pt = {p: 0.5 + 0.25 * i for i, p in enumerate(spec["params"])}
+    if "major" in pt:
+        pt["major"], pt["minor"] = 3.0, 0.75
+    if name == "binary_irrev_cstr":
+        pt.update(k=0.5, r=0.1, fr=2.0, fv=1.5)
+    pt["t"] = 0.7
+    return REPLAY_ARR % dict(fn=spec.get("fn", name), name=name, nval=nval, pt=repr(pt), call=call)
+
+
 def tasks(tier, seed):
     ts = []
     for name, spec in CASES.items():
@@ -284,5 +403,7 @@ def tasks(tier, seed):
             for kind in ("ode", "init"):
                 ts.append(dict(id="C17.%s%s.%s" % (name, (".n%d" % nval) if len(spec.get("ns", [1])) > 1 else "", kind),
                                fn="ob", kwargs=dict(name=name, kind=kind, nval=nval, seed=seed), timeout=300))
+    for name in CASES:
+        ts.append(dict(id="C17.%s.array" % name, fn="ob_array", kwargs=dict(name=name, nval=1, seed=seed), timeout=300))
     ts.append(dict(id="C17.binary_rev.discriminant", fn="ob_disc", kwargs=dict(seed=seed), timeout=120))
     return ts
